@@ -42,6 +42,9 @@ ADJ = {
 # ... and with every character a careless join might put between two key values
 for _i, _sep in enumerate(' ,|;:\t-_=\x1f'):
     ADJ['adj-sep-%d' % _i] = {'draft': D({'letter.old%scopy' % _sep: F(3)}), 'draft%sold' % _sep: D({'x.copy': F(5)}), 'other': D({'y.copy': F(7)})}
+# two keys whose values are the same text in one group (ext = length(name), ext = uid), and two groups whose values are each other's swapped
+ADJ['twin-keys'] = {'log.5': F(1), 'syslog.8': F(2), 'abc.7': F(3), 'a.b.c.5': F(4), 'f.1': F(5, uid=1), 'gg.10': F(6, uid=10), 'hh.0': F(7), 'x.false': D({}), 'y.true': F(8),
+                    'sub.3': D({'sub.3': F(9), 'k.5': F(10)})}
 TREES.update(ADJ)
 # key values that look like numbers are still text (ext), and sort keys that are not selected
 TREES['numext'] = {'a.9': F(3), 'b.10': F(5), 'c.1a': F(7), 'd.a': F(1), 'e.010': F(9), 'f.9': F(11), 'g.10': F(2), 'h': F(4), 'i.-1': F(6), 'j.1e1': F(8)}
@@ -84,8 +87,8 @@ def groups(tier, seed):
     for tname in ADJ:
         for kl in keylists(tier):
             if len(kl) == 2:
-                yield {'tree': tname, 'keys': kl, 'cases': [{'aggs': AGGS[ai], 'where': 0, 'aggfirst': False, 'order': ob}
-                                                            for ai in (0, 2) for ob in (None, kl[0])]}
+                yield {'tree': tname, 'keys': kl, 'cases': [{'aggs': AGGS[ai], 'where': 0, 'aggfirst': False, 'order': ob, 'rd': rd}
+                                                            for ai in (0, 2) for ob in (None, kl[0]) for rd in ('sorted', 'rev')]}
     # sort keys that are not in the select list: a grouping key, an aggregate
     for tname in ('numext', 'small', 'rich'):
         for k in KEYS:
@@ -182,7 +185,7 @@ def single(case):
     if case.get('kind') == 'group-sort':
         return {'kind': 'group-sort', 'tree': None, 'keys': [], 'cases': []}
     return {'tree': case['tree'], 'keys': case['keys'],
-            'cases': [{k: case[k] for k in ('aggs', 'where', 'aggfirst', 'order', 'bare', 'hidden', 'desc') if k in case}]}
+            'cases': [{k: case[k] for k in ('aggs', 'where', 'aggfirst', 'order', 'bare', 'hidden', 'desc', 'rd') if k in case}]}
 
 
 def entries(root):
@@ -285,7 +288,7 @@ def eval_group(env, group, tier):
             if c['order']:
                 q += ' order by ' + c['order']
             q += ' into list'
-            o = env.run([q], cwd=root)
+            o = env.run([q], cwd=root, preload=True, env={'FSX_READDIR': c['rd']}) if c.get('rd') else env.run([q], cwd=root)
             case = dict(c, tree=group['tree'], keys=keys, query=q)
             # model partition
             part = {}
